@@ -19,6 +19,7 @@
 #include "myth_init_func.h"
 #include "myth_misc_func.h"
 #include "myth_worker_func.h"
+#include "myth_spinlock_func.h"
 
 /* allocate a node (internal or leaf) of a tls tree */
 static inline myth_tls_tree_node_t *
@@ -247,6 +248,7 @@ static inline void myth_tls_key_allocator_init(myth_tls_key_allocator_t * s) {
   }
   s->keys[myth_tls_n_keys - 1].next = 0;
   s->free = &s->keys[0];
+  myth_spin_init_body(s->lock);
 }
 
 static inline void myth_tls_key_allocator_fini(myth_tls_key_allocator_t * s) {
@@ -266,6 +268,8 @@ static inline void myth_tls_fini() {
 static inline int
 myth_tls_key_allocator_alloc(myth_tls_key_allocator_t * s,
 			     myth_tls_destructor_fun_t destructor) {
+  int k = -1;
+  myth_spin_lock_body(s->lock);
   while (1) {
     /* try to pull the element from the free list */
     myth_tls_key_entry_t * ke = s->free;
@@ -276,12 +280,15 @@ myth_tls_key_allocator_alloc(myth_tls_key_allocator_t * s,
 	/* mark the key as used */
 	ke->next = (myth_tls_key_entry_t *)-1;
 	ke->destructor = destructor;
-	return ke - s->keys;
+	k = ke - s->keys;
+	break;
       }
     } else {
-      return -1;
+      break;
     }
   }
+  myth_spin_unlock_body(s->lock);
+  return k;
 }
 
 /* deallocate a key */
@@ -291,8 +298,10 @@ myth_tls_key_allocator_dealloc(myth_tls_key_allocator_t * s, int key) {
     return (myth_tls_destructor_fun_t)-1;
   }
   myth_tls_key_entry_t * ke = &s->keys[key];
+  myth_spin_lock_body(s->lock);
   /* make sure the key is being used */
   if (ke->next != (myth_tls_key_entry_t *)-1) {
+    myth_spin_unlock_body(s->lock);
     return (myth_tls_destructor_fun_t)-1;
   }
   myth_tls_destructor_fun_t f = ke->destructor;
@@ -302,9 +311,11 @@ myth_tls_key_allocator_dealloc(myth_tls_key_allocator_t * s, int key) {
     ke->next = head;
     MYTH_VERIF_POINT(MYTH_VP_TLS_KEY_CAS_DEALLOC, s, ke, 0);
     if (__sync_bool_compare_and_swap(&s->free, head, ke)) {
-      return f;
+      break;
     }
   }
+  myth_spin_unlock_body(s->lock);
+  return f;
 }
 
 static inline int myth_key_create_body(myth_key_t * key,
